@@ -767,7 +767,11 @@ func reusedCase(o *hx.Out, r *hx.Rng, secs, k1, k2, b1, b2 int) {
 		o.Fail("C13.save.reused", "%s: the save round trip of the reused chunk: panic=%q err=%v", desc, p, err)
 		return
 	}
-	got := takeSnap(lc)
+	var got snap
+	if p := hx.Try(func() { got = takeSnap(lc) }); p != "" {
+		o.Fail("C13.save.reused", "%s: reading the chunk that came back from the save form panics: %s", desc, p)
+		return
+	}
 	for i := range want.blocks {
 		if j := eqInts(want.blocks[i], got.blocks[i]); j >= 0 {
 			o.Fail("C13.save.reused", "%s: section %d block %d is %d after the save round trip, the document says %d", desc, i, j, got.blocks[i][j], want.blocks[i][j])
